@@ -365,7 +365,8 @@ def neighbourhood(name, c, k, n):
         tp = None if c["tp"] in ("absent", None) else c["tp"]
         if not tp:
             return None
-        ts = c["ts"]
+        import fn_atten
+        ts = fn_atten.secs_of(c)
         return {i for i in range(n) if ts[i] - tp < ts[k] <= ts[i]}
     return None
 
